@@ -93,7 +93,7 @@ def gen_lhs(rng, xs, w):
     k = rng.random()
     const = lambda ww: claripy.BVV(rng.choice([0, 1, 2, 3, (1 << ww) - 1, 1 << (ww - 1), rng.randrange(1 << ww)]) & ((1 << ww) - 1), ww)  # noqa: E731
     shapes = ["var", "add", "sub", "rsub", "extract", "extract0", "concat0", "concatc", "zext", "sext", "and", "shl", "if", "add2", "neg", "lshr", "mul",
-              "sub2", "sub2"]
+              "sub2", "sub2", "or", "xor", "not", "udiv", "urem", "ashr", "op2"]
     sh = rng.choice(shapes)
     if sh == "var":
         e = x
@@ -132,6 +132,22 @@ def gen_lhs(rng, xs, w):
         e = claripy.If(c, x + const(wx), const(wx)) if rng.random() < 0.5 else claripy.If(c, const(wx), x)
     elif sh == "add2" and len(xs) > 1 and xs[0].size() == xs[1].size():
         e = xs[0] + xs[1] + (const(wx) if rng.random() < 0.5 else 0)
+    elif sh == "or":
+        e = x | const(wx)
+    elif sh == "xor":
+        e = x ^ const(wx)
+    elif sh == "not":
+        e = ~x
+    elif sh == "udiv":          # a zero divisor is exempt (the abstract quotient is the empty interval)
+        e = x // claripy.BVV(rng.randrange(1, 1 << wx) if wx > 0 else 1, wx)
+    elif sh == "urem":
+        e = x % claripy.BVV(rng.randrange(1, 1 << wx), wx)
+    elif sh == "ashr":
+        e = x >> rng.randrange(0, wx)
+    elif sh == "op2" and len(xs) > 1 and xs[0].size() == xs[1].size():
+        # operators the balancer has no arm for, on two multi-valued operands (must be left alone)
+        a, b = (xs[0], xs[1]) if rng.random() < 0.5 else (xs[1], xs[0])
+        e = rng.choice([lambda: a * b, lambda: a & b, lambda: a | b, lambda: a // b, lambda: a << b, lambda: claripy.LShR(a, b)])()
     elif sh == "sub2" and len(xs) > 1 and xs[0].size() == xs[1].size():
         # two multi-valued operands of a subtraction (the balancer must not move the subtrahend across the comparison)
         a, b = (xs[0], xs[1]) if rng.random() < 0.5 else (xs[1], xs[0])
